@@ -135,6 +135,7 @@ function instrument(src, opts) {
         return out;
       }
       case 'EmptyStatement': return ';';
+      case 'DebuggerStatement': return '$$.unsupportedStmt("debugger");';
       case 'ClassDeclaration': throw new InstrumentError('class');
       default: throw new InstrumentError('statement ' + n.type);
     }
